@@ -31,6 +31,17 @@ type Val struct {
 	Old   bool     // pointer parameter alias that reads the pre-state
 	Typ   types.Type
 	Iv    *ival    // interval of an integer result established along the path that produced it (pure mode)
+	Arr   *arrOrigin // the value is a[lo:hi] of an array cell (set by slicing an array through its pointer)
+}
+
+// arrOrigin records that a slice value was obtained by slicing an array cell: an `appends` callee that is
+// handed this slice writes into the array when the capacity (array length - lo) suffices.
+type arrOrigin struct {
+	p    *Ptr
+	typ  types.Type // array type
+	arr  *Term      // contents of the array when it was sliced
+	lo   *Term
+	n    int64 // array length
 }
 
 // Closure is a statically known function value.
